@@ -343,25 +343,334 @@ fn case(cfg: (u64, u64, bool), hists: &[&Hist], steps: Vec<Value>) -> Value {
     json!({"cfg": {"max_list": cfg.0, "max_count": cfg.1, "expire": cfg.2}, "world": world, "steps": steps})
 }
 
-fn gen(_rng: &mut Rng, _tier: &str) -> Vec<(String, Value)> {
+//------------ faults ----------------------------------------------------------------------------------------
+
+/// Replaces every symbolic hash "hash of the file under ref r" by "hash of this document", so that changing a
+/// file afterwards does not change the hash the notification announces.
+fn pin(step: &Value) -> Value {
+    let mut s = step.clone();
+    if s["notify"]["k"] != "ok" && s["notify"]["k"] != "bad" { return s }
+    let fix = |dig: &Value| -> Value {
+        match dig.get("ref").and_then(|r| r.as_u64()) {
+            Some(r) => match file_of(step, r) { Some(f) => json!({"doc": f["doc"]}), None => dig.clone() },
+            None => dig.clone(),
+        }
+    };
+    let d = fix(&s["notify"]["snap"]["dig"]);
+    s["notify"]["snap"]["dig"] = d;
+    if let Some(ds) = s["notify"]["deltas"].as_array_mut() { for e in ds.iter_mut() { let d = fix(&e["dig"]); e["dig"] = d; } }
+    s
+}
+
+type Fault = (String, Value, Option<(u64, u64)>);
+
+/// Every single fault applicable to a step (an honest one or one that already carries faults).  `h`, `i`: the
+/// history and version the server is at (for documents of the wrong type).
+fn faults_of(step: &Value, h: &Hist, i: usize) -> Vec<Fault> {
+    let base = pin(step);
+    let mut res: Vec<Fault> = Vec::new();
+    if base["notify"]["k"] != "ok" { return res }
+    let with_notify = |n: Value| { let mut s = base.clone(); s["notify"] = n; s };
+    // the notification request
+    res.push(("n.err404".into(), with_notify(json!({"k": "err", "status": 404})), None));
+    res.push(("n.err500".into(), with_notify(json!({"k": "err", "status": 500})), None));
+    res.push(("n.status204".into(), with_notify(json!({"k": "err", "status": 204})), None));
+    res.push(("n.no_route".into(), with_notify(json!({"k": "missing"})), None));
+    res.push(("n.304".into(), with_notify(json!({"k": "304"})), None));
+    for how in ["xml", "trunc", "cut", "origin"] {
+        let mut s = base.clone(); s["notify"]["k"] = json!("bad"); s["notify"]["how"] = json!(how);
+        res.push((format!("n.bad_{}", how), s, None));
+    }
+    let serial = base["notify"]["serial"].as_u64().unwrap();
+    { let mut s = base.clone(); s["notify"]["serial"] = json!(serial.wrapping_add(2)); res.push(("n.serial_plus2".into(), s, None)); }
+    { let mut s = base.clone(); s["notify"]["serial"] = json!(serial.wrapping_sub(1)); res.push(("n.serial_minus1".into(), s, None)); }
+    { let mut s = base.clone(); s["notify"]["session"] = json!(9); res.push(("n.session_other".into(), s, None)); }
+    // the delta list
+    let ds = base["notify"]["deltas"].as_array().unwrap().clone();
+    let l = ds.len();
+    let with_list = |v: Vec<Value>| { let mut s = base.clone(); s["notify"]["deltas"] = json!(v); s };
+    for j in 0..l {
+        let mut v = ds.clone(); v.remove(j);
+        res.push((if j == 0 { "l.drop_oldest" } else if j == l - 1 { "l.drop_newest" } else { "l.gap" }.into(), with_list(v), None));
+        let mut v = ds.clone(); v.insert(j + 1, ds[j].clone());
+        res.push(("l.dup".into(), with_list(v), None));
+        let mut v = ds.clone(); let mut e = ds[j].clone(); e["dig"] = json!({"bogus": 7}); v.insert(j + 1, e);
+        res.push(("l.dup_other_hash".into(), with_list(v), None));
+        let mut v = ds.clone(); let mut e = ds[j].clone(); e["dig"] = json!({"bogus": 7}); v.insert(j, e);
+        res.push(("l.dup_other_hash_first".into(), with_list(v), None));
+        let mut v = ds.clone(); v[j]["dig"] = json!({"bogus": 3});
+        res.push(("l.mutated_hash".into(), with_list(v), None));
+        if l > 1 {
+            let o = (j + 1) % l;
+            let mut v = ds.clone(); v[j]["dig"] = ds[o]["dig"].clone();
+            res.push(("l.hash_of_other_delta".into(), with_list(v), None));
+            let mut v = ds.clone(); v[j]["ref"] = ds[o]["ref"].clone();
+            res.push(("l.uri_of_other_delta".into(), with_list(v), None));
+            let mut v = ds.clone(); v[j]["ref"] = ds[o]["ref"].clone(); v[j]["dig"] = ds[o]["dig"].clone();
+            res.push(("l.other_delta_under_serial".into(), with_list(v), None));
+        }
+        let mut v = ds.clone(); v[j]["serial"] = json!(ds[j]["serial"].as_u64().unwrap().wrapping_add(1));
+        res.push(("l.entry_serial_plus1".into(), with_list(v), None));
+    }
+    if l > 1 {
+        let mut v = ds.clone(); v.reverse(); res.push(("l.reversed".into(), with_list(v), None));
+        let mut v = ds.clone(); v.rotate_left(1); res.push(("l.rotated".into(), with_list(v), None));
+        res.push(("l.only_newest".into(), with_list(vec![ds[l - 1].clone()]), None));
+        res.push(("l.oversized".into(), base.clone(), Some((l as u64 - 1, 10))));
+        res.push(("l.count_limit_1".into(), base.clone(), Some((10, 1))));
+    }
+    if l > 0 {
+        res.push(("l.empty".into(), with_list(vec![]), None));
+        res.push(("l.count_limit_0".into(), base.clone(), Some((10, 0))));
+        res.push(("l.list_limit_0".into(), base.clone(), Some((0, 10))));
+        let mut v = ds.clone();
+        v.push(json!({"serial": ds[l - 1]["serial"].as_u64().unwrap().wrapping_add(1), "ref": 97, "dig": {"bogus": 5}}));
+        res.push(("l.extra_future".into(), with_list(v), None));
+    }
+    // the snapshot entry
+    { let mut s = base.clone(); s["notify"]["snap"]["dig"] = json!({"bogus": 1}); res.push(("s.hash_bogus".into(), s, None)); }
+    { let mut s = base.clone(); s["notify"]["snap"]["ref"] = json!(98); res.push(("s.uri_404".into(), s, None)); }
+    // the files
+    let files = base["files"].as_array().unwrap().clone();
+    for (fi, f) in files.iter().enumerate() {
+        let snap = f["doc"]["t"] == "s";
+        let tag = if snap { "fs" } else { "fd" };
+        let with_file = |nf: Value| { let mut s = base.clone(); s["files"][fi] = nf; s };
+        let with_doc = |d: Value| { let mut nf = f.clone(); nf["doc"] = d; with_file(nf) };
+        for st in [404u64, 500] { let mut nf = f.clone(); nf["status"] = json!(st); res.push((format!("{}.status{}", tag, st), with_file(nf), None)); }
+        { let mut d = f["doc"].clone(); d["session"] = json!(9); res.push((format!("{}.doc_session_other", tag), with_doc(d), None)); }
+        { let mut d = f["doc"].clone(); d["serial"] = json!(d["serial"].as_u64().unwrap().wrapping_add(1)); res.push((format!("{}.doc_serial_plus1", tag), with_doc(d), None)); }
+        if snap { if i >= 1 { res.push(("fs.is_a_delta".into(), with_doc(h.delta_doc(i)), None)); } }
+        else { res.push(("fd.is_a_snapshot".into(), with_doc(h.snap_doc(i)), None)); }
+        let els = f["doc"]["els"].as_array().unwrap().clone();
+        for k in 0..=els.len() {
+            let mut d = f["doc"].clone(); d["els"] = json!(els[..k].to_vec()); d["broken"] = json!(true);
+            res.push((format!("{}.broken_after_{}", tag, if k == els.len() { "all".to_string() } else { k.to_string() }), with_doc(d), None));
+        }
+        let with_els = |v: Vec<Value>| { let mut d = f["doc"].clone(); d["els"] = json!(v); with_doc(d) };
+        for k in 0..els.len() {
+            let mut v = els.clone(); v.remove(k); res.push((format!("{}.element_dropped", tag), with_els(v), None));
+            let mut v = els.clone(); v.insert(k + 1, els[k].clone()); res.push((format!("{}.element_repeated", tag), with_els(v), None));
+            let mut v = els.clone();
+            let last = v[k].as_array().unwrap().len() - 1;
+            if snap || v[k][0] != "w" {
+                v[k][last] = json!(1 - v[k][last].as_u64().unwrap().min(1));
+                res.push((format!("{}.element_other_content", tag), with_els(v), None));
+            }
+            if !snap && els[k][0] != "p" {
+                let mut v = els.clone(); v[k][2] = json!(1 - v[k][2].as_u64().unwrap().min(1));
+                res.push(("fd.element_other_old_hash".into(), with_els(v), None));
+                let mut v = els.clone(); v[k][2] = json!(5);
+                res.push(("fd.element_unknown_old_hash".into(), with_els(v), None));
+            }
+        }
+        for u in 0..NURI {
+            if snap {
+                for at_end in [false, true] {
+                    let mut v = els.clone(); if at_end { v.push(json!([u, 0])) } else { v.insert(0, json!([u, 1])) }
+                    res.push(("fs.element_added".into(), with_els(v), None));
+                }
+            }
+            else {
+                for e in [json!(["p", u, 0]), json!(["p", u, 1]), json!(["w", u, 0]), json!(["w", u, 1]), json!(["u", u, 0, 1]), json!(["u", u, 1, 0])] {
+                    let mut v = els.clone(); v.push(e.clone()); res.push(("fd.element_added_last".into(), with_els(v), None));
+                    let mut v = els.clone(); v.insert(0, e); res.push(("fd.element_added_first".into(), with_els(v), None));
+                }
+            }
+        }
+    }
+    res
+}
+
+//------------ histories and walks ---------------------------------------------------------------------------
+
+fn all_contents() -> Vec<Content> {
+    let mut res = Vec::new();
+    for code in 0..27u64 {
+        let mut c = Content::new();
+        let mut x = code;
+        for u in 0..NURI { match x % 3 { 1 => { c.insert(u, 0); } 2 => { c.insert(u, 1); } _ => {} } x /= 3; }
+        res.push(c);
+    }
+    res
+}
+
+fn fixed_histories() -> Vec<Hist> {
+    let c = content_of;
+    vec![
+        // publish, update, publish
+        Hist { session: 1, first: 5, versions: vec![c(&[(0, 0)]), c(&[(0, 0), (1, 0)]), c(&[(0, 1), (1, 0)]), c(&[(0, 1), (1, 0), (2, 0)]), c(&[(1, 0), (2, 0)])] },
+        // publish then withdraw the same object, an empty delta, changes on disjoint objects
+        Hist { session: 1, first: 1, versions: vec![c(&[]), c(&[(1, 1)]), c(&[]), c(&[]), c(&[(0, 0), (2, 1)])] },
+        // update a -> b -> a, everything changes at once
+        Hist { session: 3, first: 100, versions: vec![c(&[(0, 0), (1, 0), (2, 0)]), c(&[(0, 1), (1, 0), (2, 0)]), c(&[(0, 0), (1, 0), (2, 0)]), c(&[(0, 1), (1, 1), (2, 1)]), c(&[])] },
+        // the last serials a u64 can hold
+        Hist { session: 4, first: u64::MAX - 2, versions: vec![c(&[(0, 0)]), c(&[(0, 0), (1, 1)]), c(&[(1, 1)])] },
+        // serial 0 is a serial
+        Hist { session: 5, first: 0, versions: vec![c(&[(2, 1)]), c(&[(2, 0)]), c(&[(1, 0), (2, 0)])] },
+    ]
+}
+
+fn random_history(rng: &mut Rng, session: u64, len: usize) -> Hist {
+    let all = all_contents();
+    let mut versions = vec![rng.pick(&all).clone()];
+    while versions.len() < len {
+        let prev = versions.last().unwrap().clone();
+        let next = match rng.below(10) {
+            0 => prev.clone(),                                   // empty delta
+            1 | 2 => rng.pick(&all).clone(),                     // anything
+            _ => {                                               // one or two objects change
+                let mut n = prev.clone();
+                for _ in 0..rng.range(1, 2) {
+                    let u = rng.below(NURI);
+                    match rng.below(3) { 0 => { n.remove(&u); } 1 => { n.insert(u, 0); } _ => { n.insert(u, 1); } }
+                }
+                n
+            }
+        };
+        versions.push(next);
+    }
+    let first = match rng.below(8) { 0 => 0, 1 => 1, 2 => u64::MAX - len as u64 + 1, _ => rng.range(1, 1000) };
+    Hist { session, first, versions }
+}
+
+/// The sequence of honest steps for a walk: (index of the history, version, number of deltas listed).
+fn honest_walk(hists: &[Hist], walk: &[(usize, usize, usize)]) -> Vec<Value> {
+    walk.iter().map(|(hi, v, w)| hists[*hi].honest_step(*v, *w)).collect()
+}
+
+fn case_of(cfg: (u64, u64, bool), hists: &[Hist], steps: Vec<Value>) -> Value {
+    let refs: Vec<&Hist> = hists.iter().collect();
+    case(cfg, &refs, steps)
+}
+
+/// The three witnesses of the defects that were corrected (also kept in corpus/C25/updates.json).
+fn witnesses() -> Vec<(String, Value)> {
     let mut cases = Vec::new();
-    let h = Hist { session: 1, first: 5, versions: vec![
-        content_of(&[(0, 0)]), content_of(&[(0, 0), (1, 0)]), content_of(&[(0, 1), (1, 0)]), content_of(&[(0, 1), (1, 0), (2, 0)]),
-    ] };
-    // honest walk
-    cases.push(("probe.honest".to_string(), case((10, 10, false), &[&h], vec![h.honest_step(0, 5), h.honest_step(1, 5), h.honest_step(3, 5), h.honest_step(3, 5)])));
-    // F17: gapped list
-    let mut s = h.honest_step(3, 5);
+    let h = fixed_histories().remove(0);
+    let hs = [h.clone()];
+    let mut s = pin(&h.honest_step(3, 5));
     s["notify"]["deltas"].as_array_mut().unwrap().remove(1);
-    cases.push(("probe.gap".to_string(), case((10, 10, false), &[&h], vec![h.honest_step(0, 5), s])));
-    // F16: 304 without copy
-    cases.push(("probe.304_nocopy".to_string(), case((10, 10, false), &[&h], vec![json!({"notify": {"k": "304"}, "files": []}), h.honest_step(0, 5)])));
-    // F20: mutated delta file, snapshot fails, then honest
-    let mut s = h.honest_step(1, 5);
+    cases.push(("corpus.F17_gapped_delta_list_applied".to_string(), case_of((10, 10, false), &hs, vec![h.honest_step(0, 5), s])));
+    cases.push(("corpus.F16_not_modified_without_copy".to_string(), case_of((10, 10, false), &hs,
+        vec![json!({"notify": {"k": "304"}, "files": []}), h.honest_step(0, 5)])));
+    let mut s = pin(&h.honest_step(1, 5));
     s["files"][1]["doc"]["els"] = json!([["p", 2, 0]]);
-    s["notify"]["deltas"][0]["dig"] = json!({"doc": h.delta_doc(1)});
     s["files"][0]["status"] = json!(500);
-    cases.push(("probe.partial".to_string(), case((10, 10, false), &[&h], vec![h.honest_step(0, 5), s, h.honest_step(1, 5)])));
+    cases.push(("corpus.F20_partial_delta_then_failed_snapshot".to_string(), case_of((10, 10, false), &hs,
+        vec![h.honest_step(0, 5), s, h.honest_step(1, 5)])));
+    cases
+}
+
+fn gen(rng: &mut Rng, tier: &str) -> Vec<(String, Value)> {
+    let thorough = tier == "thorough";
+    let mut cases = witnesses();
+    let mut hists = fixed_histories();
+    let nrand = if thorough { 12 } else { 2 };
+    for k in 0..nrand { let h = random_history(rng, 10 + k, 5); hists.push(h); }
+
+    // (a) honest servers: every walk 0 <= v1 <= v2 <= v3 (<= v4) through a history, several window sizes
+    for (hi, h) in hists.iter().enumerate() {
+        let n = h.versions.len();
+        for a in 0..n { for b in a..n { for c in b..n {
+            for w in [1usize, 2, 5] {
+                if !thorough && (a + b + c + w + hi) % 3 != 0 { continue }
+                cases.push(("honest.walk".to_string(), case_of((10, 10, false), std::slice::from_ref(h),
+                    honest_walk(std::slice::from_ref(h), &[(0, a, w), (0, b, w), (0, c, w), (0, n - 1, w)]))));
+            }
+        }}}
+    }
+
+    // (b) every single fault at every step of a walk, from the local state the walk has reached, then the walk goes on
+    let walks: Vec<Vec<(usize, usize, usize)>> = vec![
+        vec![(0, 0, 5), (0, 1, 5), (0, 3, 5), (0, 3, 5), (0, 4, 5)],
+        vec![(0, 1, 2), (0, 2, 2), (0, 4, 2)],
+    ];
+    for (hi, h) in hists.iter().enumerate() {
+        for (wi, walk) in walks.iter().enumerate() {
+            let walk: Vec<(usize, usize, usize)> = walk.iter().map(|(a, v, w)| (*a, (*v).min(h.versions.len() - 1), *w)).collect();
+            if !thorough && hi >= 3 && wi == 1 { continue }
+            let honest = honest_walk(std::slice::from_ref(h), &walk);
+            for t in 0..honest.len() {
+                for (name, step, cfg) in faults_of(&honest[t], h, walk[t].1) {
+                    let mut steps = honest.clone();
+                    steps[t] = step;
+                    let (ml, mc) = cfg.unwrap_or((10, 10));
+                    let expire = (hi + t) % 4 == 3;
+                    cases.push((format!("single_fault.{}", name), case_of((ml, mc, expire), std::slice::from_ref(h), steps)));
+                }
+            }
+        }
+    }
+
+    // (c) a fault in a delta file together with a failing snapshot in the same run, then the honest server again
+    for (hi, h) in hists.iter().enumerate() {
+        if !thorough && hi >= 3 { continue }
+        let last = h.versions.len() - 1;
+        let walk = [(0usize, 0usize, 5usize), (0, last.min(2), 5), (0, last.min(2), 5), (0, last, 5)];
+        let honest = honest_walk(std::slice::from_ref(h), &walk);
+        let delta_faults: Vec<Fault> = faults_of(&honest[1], h, walk[1].1).into_iter().filter(|f| f.0.starts_with("fd.") || f.0.starts_with("l.")).collect();
+        for (name, step, cfg) in delta_faults {
+            let snap_faults: Vec<Fault> = faults_of(&step, h, walk[1].1).into_iter()
+                .filter(|f| ["fs.status500", "s.hash_bogus", "fs.broken_after_all", "fs.doc_serial_plus1", "fs.element_dropped"].contains(&f.0.as_str())).collect();
+            for (k, (sname, step2, _)) in snap_faults.into_iter().enumerate() {
+                if !thorough && k > 1 { continue }
+                let mut steps = honest.clone();
+                steps[1] = step2;
+                let (ml, mc) = cfg.unwrap_or((10, 10));
+                cases.push((format!("delta_and_snapshot_fault.{}+{}", name, sname), case_of((ml, mc, false), std::slice::from_ref(h), steps)));
+            }
+        }
+    }
+
+    // (d) random: two sessions, the server moves forward, stays, goes back or changes session; several faults per run
+    let n = if thorough { 6000 } else { 700 };
+    for _ in 0..n {
+        let (l1, l2) = (rng.range(2, 5) as usize, rng.range(1, 4) as usize);
+        let hs = vec![random_history(rng, 1, l1), random_history(rng, 2, l2)];
+        let nsteps = rng.range(2, 6) as usize;
+        let (mut hi, mut v) = (0usize, 0usize);
+        let mut steps = Vec::new();
+        let mut cfg = (rng.range(0, 6), rng.range(0, 6), rng.chance(1, 5));
+        if rng.chance(2, 3) { cfg.0 = 10; cfg.1 = 10; }
+        let mut nfaults = 0;
+        for _ in 0..nsteps {
+            match rng.below(10) {
+                0 => { hi = 1 - hi; v = rng.below(hs[hi].versions.len() as u64) as usize; }
+                1 => { v = rng.below(hs[hi].versions.len() as u64) as usize; }
+                2 | 3 => {}
+                _ => { v = (v + rng.range(1, 2) as usize).min(hs[hi].versions.len() - 1); }
+            }
+            let mut step = hs[hi].honest_step(v, rng.range(1, 5) as usize);
+            let k = match rng.below(10) { 0..=3 => 0, 4..=7 => 1, 8 => 2, _ => 3 };
+            for _ in 0..k {
+                let fs = faults_of(&step, &hs[hi], v);
+                if fs.is_empty() { break }
+                let (_, s2, c2) = fs[rng.below(fs.len() as u64) as usize].clone();
+                step = s2;
+                if let Some(c) = c2 { if steps.is_empty() { cfg.0 = c.0; cfg.1 = c.1; } }
+                nfaults += 1;
+            }
+            steps.push(step);
+        }
+        let class = format!("random.{}_faults", if nfaults > 3 { "4+".to_string() } else { nfaults.to_string() });
+        cases.push((class, case_of(cfg, &hs, steps)));
+    }
+
+    // (e) malformed: the server re-issues a delta with different content under a matching hash (outside the
+    //     hash-integrity premise: only the correspondence is checked), before and after the client has seen it
+    for (hi, h) in hists.iter().enumerate() {
+        if h.versions.len() < 4 || (!thorough && hi >= 3) { continue }
+        let honest = honest_walk(std::slice::from_ref(h), &[(0, 1, 5), (0, 2, 5), (0, 3, 5)]);
+        for t in 1..3 { for fi in 1..=t + 1 {
+            let mut steps = honest.clone();
+            if steps[t]["files"].as_array().unwrap().len() <= fi { continue }
+            steps[t]["files"][fi]["doc"]["els"].as_array_mut().unwrap().push(json!(["p", 2, 1]));
+            cases.push(("malformed.delta_reissued_with_matching_hash".to_string(), case_of((10, 10, false), std::slice::from_ref(h), steps.clone())));
+            steps[t]["files"][fi]["doc"]["els"] = json!([]);
+            cases.push(("malformed.delta_reissued_with_matching_hash".to_string(), case_of((10, 10, false), std::slice::from_ref(h), steps)));
+        }}
+    }
     cases
 }
 
